@@ -26,7 +26,7 @@ def ufun(name, *sorts):
 
 
 def is_concrete(t):
-    t = z3.simplify(t)
+    t = simp(t)
     return z3.is_int_value(t) or z3.is_string_value(t) or z3.is_true(t) or z3.is_false(t)
 
 
@@ -35,24 +35,24 @@ def conc(v):
     if isinstance(v, VNone):
         return None
     if isinstance(v, (VInt,)):
-        t = z3.simplify(v.t)
+        t = simp(v.t)
         if z3.is_int_value(t):
             return t.as_long()
         raise KeyError
     if isinstance(v, VBool):
-        t = z3.simplify(v.t)
+        t = simp(v.t)
         if z3.is_true(t):
             return True
         if z3.is_false(t):
             return False
         raise KeyError
     if isinstance(v, VStr):
-        t = z3.simplify(v.t)
+        t = simp(v.t)
         if z3.is_string_value(t):
             return t.as_string() if '\\u{' not in t.as_string() else _unescape_z3(t.as_string())
         raise KeyError
     if isinstance(v, VBytes):
-        t = z3.simplify(v.t)
+        t = simp(v.t)
         if z3.is_string_value(t):
             return _unescape_z3(t.as_string()).encode('latin-1')
         raise KeyError
@@ -91,6 +91,45 @@ def lift(pyv):
     if isinstance(pyv, list):
         return VCell(VTuple([lift(x) for x in pyv]), 'list')
     raise Unsupported('cannot lift %r' % (pyv,))
+
+
+class VGenExpr(V):
+    """(elt for target in seq if ...) over a symbolic sequence, not yet consumed"""
+
+    def __init__(self, node, fr, seq, kind):
+        self.node = node
+        self.fr = fr
+        self.seq = seq
+        self.kind = kind
+
+    def predicate(self, it, x):
+        """truth of `elt` (and the ifs) with the target bound to x, evaluated
+        without forking (pure boolean element expressions only)"""
+        g = self.node.generators[0]
+        sub = Frame(self.fr.func, self.fr.module, self.fr.cls, parent=self.fr)
+        sub.self_value = self.fr.self_value
+        it.assign(g.target, x, sub)
+        saved = it.ctx.choose
+
+        def nofork(n, label=''):
+            raise Unsupported('element expression of a symbolic comprehension forks (%s)' % label, self.node)
+        it.ctx.choose = nofork
+        try:
+            conds = [it.truth(pure_bool(it, c, sub)) for c in g.ifs]
+            val = pure_bool(it, self.node.elt, sub)
+        finally:
+            it.ctx.choose = saved
+        return conds, val
+
+
+def pure_bool(it, e, fr):
+    """evaluate a boolean expression without short-circuit forks"""
+    if isinstance(e, ast.BoolOp):
+        parts = [it.truth(pure_bool(it, v, fr)) for v in e.values]
+        return VBool(z3.And(*parts) if isinstance(e.op, ast.And) else z3.Or(*parts))
+    if isinstance(e, ast.UnaryOp) and isinstance(e.op, ast.Not):
+        return VBool(z3.Not(it.truth(pure_bool(it, e.operand, fr))))
+    return it.eval(e, fr)
 
 
 class IterSource:
@@ -280,7 +319,7 @@ class Lib:
 
             def nxt(itp, i):
                 if itp.ctx.branch(i < z3.Length(seq.t), 'for-more'):
-                    el = seq.ety.wrap(z3.simplify(seq.t[i]))
+                    el = seq.ety.wrap(simp(seq.t[i]))
                     self.assume_element(itp, seq, el)
                     return el
                 return None
@@ -343,7 +382,12 @@ class Lib:
     def symbolic_comprehension(self, it, e, fr, kind, src):
         """(f(x) for x in seq) over a symbolic sequence: result is an
         uninterpreted map whose i-th element is defined pointwise on demand"""
-        raise Unsupported('comprehension over symbolic sequence', e)
+        c = it._norm_container(src)
+        if isinstance(c, VMap):
+            c = self.map_keys(it, c)
+        if not isinstance(c, VSeq):
+            raise Unsupported('comprehension over %r' % (src,), e)
+        return VGenExpr(e, fr, c, kind)
 
     # strings ------------------------------------------------------------
     def same_str_sort(self, a, b):
@@ -582,7 +626,7 @@ class Lib:
         if it.ctx.branch(i < 0, what + '-neg'):
             i = i + length
         if it.ctx.branch(z3.And(i >= 0, i < length), what + '-inbounds'):
-            return z3.simplify(i)
+            return simp(i)
         it.raise_('IndexError', line=getattr(node, 'lineno', None))
 
     def _slice_bounds(self, it, lo, hi, length):
@@ -596,7 +640,7 @@ class Lib:
         a = norm(lo, z3.IntVal(0))
         b = norm(hi, length)
         n = z3.If(b > a, b - a, z3.IntVal(0))
-        return z3.simplify(a), z3.simplify(n)
+        return simp(a), simp(n)
 
     def getitem(self, it, obj, idx, node):
         c = it._norm_container(obj)
@@ -613,10 +657,10 @@ class Lib:
             if isinstance(c, (VStr, VBytes)):
                 a, n = self._slice_bounds(it, lo, hi, z3.Length(c.t))
                 r = z3.SubSeq(c.t, a, n)
-                return type(c)(z3.simplify(r))
+                return type(c)(simp(r))
             if isinstance(c, VSeq):
                 a, n = self._slice_bounds(it, lo, hi, z3.Length(c.t))
-                r = VSeq(z3.simplify(z3.SubSeq(c.t, a, n)), c.ety, c.kind)
+                r = VSeq(simp(z3.SubSeq(c.t, a, n)), c.ety, c.kind)
                 return VCell(r, 'list') if c.kind == 'list' else r
             raise Unsupported('slice of %r' % (c,), node)
         if isinstance(c, VTuple):
@@ -632,14 +676,14 @@ class Lib:
             it.raise_('IndexError', line=getattr(node, 'lineno', None))
         if isinstance(c, VStr):
             i = self._index(it, idx, z3.Length(c.t), node)
-            return VStr(z3.simplify(z3.SubSeq(c.t, i, 1)))
+            return VStr(simp(z3.SubSeq(c.t, i, 1)))
         if isinstance(c, VBytes):
             i = self._index(it, idx, z3.Length(c.t), node)
             self.assumed(it, 'A-bytes: bytes[i] as code of a latin-1 character')
             return VInt(z3.StrToCode(z3.SubSeq(c.t, i, 1)))
         if isinstance(c, VSeq):
             i = self._index(it, idx, z3.Length(c.t), node)
-            el = c.ety.wrap(z3.simplify(c.t[i]))
+            el = c.ety.wrap(simp(c.t[i]))
             self.assume_element(it, c, el)
             return el
         if isinstance(c, VMap):
@@ -651,10 +695,10 @@ class Lib:
             except EncodeError:
                 it.raise_('KeyError', line=getattr(node, 'lineno', None))
             o = self._map_opt(c)
-            cell = z3.simplify(z3.Select(c.t, k))
+            cell = simp(z3.Select(c.t, k))
             if it.ctx.branch(o.is_none(cell), 'keyerror'):
                 it.raise_('KeyError', line=getattr(node, 'lineno', None))
-            v = c.vty.wrap(z3.simplify(o.val(cell)))
+            v = c.vty.wrap(simp(o.val(cell)))
             inv = c.vty.invariant(o.val(cell))
             if inv is not None:
                 it.ctx.assume(inv)
